@@ -54,8 +54,8 @@ def run(ctx, chk):
               "Builder::id returns %s and leaves next_id = %s (expected: returns N, leaves N+1)" % (fmt_lin(res[0]) if res else "?", fmt_lin(res[1]) if res else "?"),
               raw.where("id", "Builder"), sample=[show_stmt(s_) for s_ in f["body"][1]])
     f = ctx.rspirv.fn(BLD, "module", "Builder")
-    good, why = module_bound_shape(f)
-    chk.check(R1, good, "module():bound=next_id", "Builder::module does not store next_id as the header bound on both branches: %s" % why,
+    good, why = module_bound_eval(ctx, f)
+    chk.check(R1, good, "module():bound=next_id", "Builder::module does not store next_id as the header bound whether or not a header was set: %s" % why,
               raw.where("module", "Builder"))
     headerx.report(chk, R1, raw, headerx.header_api_problems(ctx), only=["ModuleHeader::new"], keyp="C13")
 
@@ -201,37 +201,40 @@ def eval_counter(f):
     return (r, state["next"])
 
 
-def module_bound_shape(f):
-    """every way of producing the header stores next_id: exactly two `bound` writers (assignment to <h>.bound, ModuleHeader::new(x)),
-    under complementary conditions on the presence of the header, each storing self.next_id (possibly through a local bound to it)"""
-    from ..tree import sites
-    alias = {"self.next_id"}
-    for n in walk(f["body"]):
-        if n[0] == "block":
-            for s_ in n[1]:
-                if s_[0] == "local" and s_[3] is not None:
-                    if show(s_[3]) == "self.next_id" and s_[1][0] == "p_ident":
-                        alias.add(s_[1][1])
-                    if s_[1][0] == "p_struct" and s_[1][1].split("::")[-1] == "Builder" and show(s_[3]) == "self":
-                        for fld, p in s_[1][2]:
-                            if fld == "next_id" and p[0] == "p_ident":
-                                alias.add(p[1])
-    ws = sites(f["body"], lambda n: (n[0] == "assign" and show(n[1]).endswith(".bound")) or
-               (n[0] == "call" and (path_of(n[1]) or "").endswith("ModuleHeader::new") and len(n[2]) == 1))
-    if len(ws) != 2:
-        return False, "%d bound-writing sites" % len(ws)
-    kinds = set()
-    for n, conds in ws:
-        rhs = show(n[2]) if n[0] == "assign" else show(n[2][0])
-        if rhs not in alias:
-            return False, "a branch stores %s" % rhs
-        c = " ".join(conds)
-        if "Some(" in c and not c.startswith("!("):
-            kinds.add("some")
-        elif "None" in c or c.startswith("!("):
-            kinds.add("none")
-        else:
-            return False, "condition %s" % conds
-    return kinds == {"some", "none"}, "branches %s" % sorted(kinds)
+def module_bound_eval(ctx, f):
+    """Builder::module() evaluated on a builder whose counter holds a witness value, once without a header and once with a header whose
+    bound is a different value: the returned module's header must exist and carry the counter as its bound, other header fields kept"""
+    import copy
+    from . import evalsum, progx
+    from ..symeval import Panic as SPanic
+    NEXT, STALE = 0x5A17, 0x33
+    why = []
+    for had in (False, True):
+        b = evalsum.fresh_builder(ctx, "none")
+        b[2]["next_id"] = NEXT
+        if had:
+            hf = ctx.rspirv.fn("rspirv::dr::constructs", "new", "ModuleHeader", False)
+            hh = evalsum.BH(ctx)
+            hh.self_ty = "ModuleHeader"
+            hv = progx.make(hh, "ModuleHeader::new").run(hf, {[q[0] for q in hf["sig"]["params"]][0]: STALE})
+            if not (isinstance(hv, tuple) and hv and hv[0] == "struct" and "bound" in hv[2]):
+                raise Anchor("ModuleHeader::new does not yield a struct with a bound field: %r" % (hv,))
+            hv[2]["version"] = ("sym", "EXISTING_VERSION")
+            b[2]["module"][2]["header"] = ("some", hv)
+        h = evalsum.BH(ctx)
+        try:
+            r = progx.make(h, "Builder::module").run(f, {"self": b})
+        except SPanic as x:
+            why.append("%s a header: panics (%s)" % ("with" if had else "without", x))
+            continue
+        hd = r[2].get("header") if isinstance(r, tuple) and r and r[0] == "struct" else None
+        if not (isinstance(hd, tuple) and hd and hd[0] == "some" and isinstance(hd[1], tuple) and hd[1][0] == "struct"):
+            why.append("%s a header: the result has header %r" % ("with" if had else "without", hd))
+            continue
+        if hd[1][2].get("bound") != NEXT:
+            why.append("%s a header: bound is %r, the counter is %#x" % ("with" if had else "without", hd[1][2].get("bound"), NEXT))
+        if had and hd[1][2].get("version") != ("sym", "EXISTING_VERSION"):
+            why.append("with a header: the header's other fields are not kept")
+    return not why, "; ".join(why)
 
 
